@@ -1022,3 +1022,45 @@ Proof.
   intros bs pos. unfold tokenize. destruct (genops_at bs pos) as [ts st] eqn:G.
   pose proof (genops_no_fuel _ _ _ _ G). destruct st; [discriminate|]. congruence.
 Qed.
+
+(* the success domain of Pickled.load: exactly the streams on which the token loop reaches STOP and
+   every opcode has a class; then there is one opcode per token, at the token's position *)
+Lemma existsb_classless_forallb : forall ts,
+  existsb classless ts = negb (forallb (fun t => row_has_class (t_row t)) ts).
+Proof.
+  induction ts as [|t r IH]; [reflexivity|]. cbn [existsb forallb]. rewrite IH. unfold classless.
+  destruct (row_has_class (t_row t)); reflexivity.
+Qed.
+
+Lemma load_accepts : forall bs o ts,
+  tokenize bs o = Ok ts ->
+  (forallb (fun t => row_has_class (t_row t)) ts = true ->
+     exists r, load_model KSeekable bs o = LOk r /\
+               map o_row (l_ops r) = map t_row ts /\ map o_pos (l_ops r) = map t_pos ts) /\
+  (forallb (fun t => row_has_class (t_row t)) ts = false -> load_model KSeekable bs o = LErr LNotImpl).
+Proof.
+  intros bs o ts H. unfold tokenize in H.
+  destruct (genops_at bs o) as [ts0 st] eqn:G. destruct st; [|discriminate]. inversion H; subst; clear H.
+  pose proof G as G'. unfold genops_at in G'. destruct (genops_done _ _ _ _ G') as (a & t & -> & _ & _).
+  unfold load_model. rewrite (load_stream_eq _ _ _ _ G). rewrite existsb_classless_forallb.
+  split; intros F; rewrite F; cbn [negb]; [|reflexivity].
+  eexists. split; [reflexivity|]. cbn [l_ops].
+  rewrite !map_app, !map_map. cbn [map fresh fill o_row o_pos]. split; reflexivity.
+Qed.
+
+Lemma load_rejects : forall bs o e,
+  tokenize bs o = Err e ->
+  exists x, load_model KSeekable bs o = LErr x /\
+            (e = EValue -> x = LEmpty \/ x = LDecode \/ x = LNotImpl).
+Proof.
+  intros bs o e H. unfold tokenize in H.
+  destruct (genops_at bs o) as [ts st] eqn:G. destruct st as [|e0]; [discriminate|]. inversion H; subst; clear H.
+  pose proof G as G'. unfold genops_at in G'. pose proof (genops_chain _ _ _ _ _ G') as C.
+  unfold load_model, load_stream. rewrite G.
+  change (@nil opc) with (acc_of bs []).
+  rewrite (load_loop_closed bs _ o [] (TErr e) C) by (left; reflexivity).
+  destruct (existsb classless ts).
+  - eexists. split; [reflexivity|]. auto.
+  - destruct e; try (eexists; split; [reflexivity|]; intros; discriminate).
+    eexists. split; [reflexivity|]. intros _. destruct (acc_of bs (rev ts ++ [])); cbn; auto.
+Qed.
